@@ -34,13 +34,7 @@ def run(ctx):
     env = kit.Env(ctx, order=order)
     mon = convmon.ConvertMonitor(env, ctx)
     conv = env.conv
-    watch = kit.LineWatch(ctx, [
-        ("conversions.convert", conv.convert), ("conversions._plan_conversion", getattr(conv, "_plan_conversion", None)),
-        ("conversions._replace_factors", getattr(conv, "_replace_factors", None)), ("conversions._match_factors", getattr(conv, "_match_factors", None)),
-        ("conversions._cancel_factors", getattr(conv, "_cancel_factors", None)), ("conversions._splat", getattr(conv, "_splat", None)),
-        ("conversions._inline_paths", getattr(conv, "_inline_paths", None)), ("conversions._find_path_recursive", getattr(conv, "_find_path_recursive", None)),
-        ("conversions._reduce_dimension", getattr(conv, "_reduce_dimension", None)),
-    ])
+    watch = kit.LineWatch(ctx, kit.module_functions(conv, "conversions"))
     pools, mdl, rng = env.pools, env.mdl, ctx.rng
     if ctx.shard == 0:
         witnesses(ctx, env, mon)
@@ -149,5 +143,7 @@ def finish(ctx):
     # (merged from shards as a list of labels that *some* shard never entered; recompute)
     missing = [fn for fn, total in ctx.lines_total.items() if not ctx.lines.get(fn)]
     ctx.extra.pop("functions_never_entered", None)
-    if missing:
-        ctx.not_reached(f"anchored planner functions never entered: {missing}")
+    ctx.extra["planner_functions_never_entered"] = missing
+    entered = [fn for fn in ctx.lines_total if ctx.lines.get(fn)]
+    if "conversions.convert" in missing or len(entered) < max(3, len(ctx.lines_total) // 2):
+        ctx.not_reached(f"the workload entered only {entered} of the conversion module's functions")
